@@ -22,6 +22,7 @@ TC10 == /\ Ev.e = "c10" /\ ~Ev.panic /\ Ev.reparse_ok
         /\ SameQuestion(Ev.parsed, MeaningWith(Ev.term, Ev.atoms))                  \* and in any case the same question
 TC07 == /\ Ev.e = "c07" /\ ~Ev.panic
         /\ Ev.accepted => (Ev.reparse_ok /\ Ev.fixpoint /\ Ev.tokens_ok /\ Ev.order_ok)
+        /\ Ev.unrepresentable => ~Ev.accepted      \* a text holding what no token or type can hold is rejected, not accepted in part
 \* kinds keep their all-of / any-of meaning through emit and parse
 TKind == /\ Ev.e = "kind" /\ ~Ev.panic /\ Ev.reparse_ok
          /\ Len(Ev.kinds) = Ev.n /\ Cardinality({Ev.kinds[i] : i \in DOMAIN Ev.kinds}) = Ev.n
